@@ -116,6 +116,26 @@ harnesses! {
         forget(a); forget(b);
     }
 
+
+    // the real constructors (table generation, kernel selection) must size everything alike for f32 and f64
+    #[kani::unwind(30)]
+    #[kani::stub(rubato::CpuFeature::is_detected, crate::stubs::not_detected)]
+    fn c17_real_new_getters(nd) {
+        use rubato::{SincInterpolationParameters, WindowFunction};
+        let which = nd.bool();
+        let len = if which { 8 } else { 20 };
+        let p32 = SincInterpolationParameters { sinc_len: len, f_cutoff: 0.9, oversampling_factor: 2,
+            interpolation: SincInterpolationType::Linear, window: WindowFunction::Hann };
+        let p64 = SincInterpolationParameters { sinc_len: len, f_cutoff: 0.9, oversampling_factor: 2,
+            interpolation: SincInterpolationType::Linear, window: WindowFunction::Hann };
+        let a = SincFixedOut::<f32>::new(1.0, 1.0, p32, 2, 1).unwrap();
+        let b = SincFixedOut::<f64>::new(1.0, 1.0, p64, 2, 1).unwrap();
+        ctrl!(a, b, "C17.control_getters[base]");
+        cover!(which, "sinc_len 8");
+        cover!(!which, "sinc_len 20 (rounded up to 24)");
+        forget(a); forget(b);
+    }
+
     // synchronous types: getters and counts over 3 calls (no symbolic parameter exists)
     #[kani::unwind(12)]
     #[kani::stub(realfft::RealFftPlanner::<f64>::new, crate::stubs::planner_new)]
